@@ -14,6 +14,7 @@ import Scico.Proofs.OpAlgNonlin
 import Scico.Proofs.OpAlgFreeze
 import Scico.Proofs.OpAlgRep
 import Scico.Proofs.OpAlgConv
+import Scico.Proofs.OpAlgTables
 
 namespace Scico.Props.C05
 open Scico.OpAlg Scico.DType
@@ -232,6 +233,30 @@ theorem C05_sound_closed (a b : Obj K) (Da Db : Mx K) (ha : Sound a Da) (hb : So
    fun _ h => (opGram_sound ha h).1,
    fun collapse _ h => (vstack_sound collapse (.cons ha (.cons hb .nil)) h).1,
    fun ci co _ h => (dstack_sound ci co (.cons ha (.cons hb .nil)) h).1⟩
+
+/-- **The dispatch of the model is derived from the source tables.**  With `Tables.model` = the override table read from
+    the scico sources (kept equal to the working tree by the generated obligation `Scico.Generated.OpAlgTables.tables_ok`):
+    `Cls.isSub` is reachability along the base classes; `Cls.arith c` is the first class of the MRO of `c` defining
+    `__add__` (and `__sub__`, `__mul__`, `__truediv__`); the decorator found there selects the branch of `a ± b`; the
+    class owning `T / H / conj / gram_op` selects the branch of the four views. -/
+theorem C05_dispatch_from_source (cfg : Cfg) (sub : Bool) (a b : Obj K) :
+    (∀ c ∈ Tables.allCls, ∀ d ∈ Tables.allCls,
+        ((Tables.mro Tables.model 8 (Tables.tagOf c)).contains (Tables.tagOf d)) = c.isSub d)
+    ∧ (∀ c ∈ Tables.allCls, Tables.owner Tables.model (Tables.tagOf c) "__add__" = some (Tables.tagOf c.arith)
+        ∧ Tables.decoratorOf Tables.model (Tables.tagOf c.arith) "__add__" = some (Tables.addWrapper c)
+        ∧ Tables.decoratorOf Tables.model (Tables.tagOf c.arith) "__mul__" = some (Tables.mulWrapper c))
+    ∧ (¬ (b.cls = .matrix ∧ (a.cls = .op ∨ a.cls = .linop)) →
+        addSub cfg sub a b = (if Tables.addWrapper a.cls = "" then opAddSub sub a b
+          else if Tables.addWrapper a.cls = "_wrap_add_sub" then wrapAddSub cfg sub a b else matAddSub sub a b))
+    ∧ (∀ c ∈ Tables.allCls, ∀ meth ∈ ["T", "H", "conj", "gram_op"],
+        Tables.owner Tables.model (Tables.tagOf c) meth = (Tables.viewOwner meth c).map Tables.tagOf)
+    ∧ opT cfg a = (match Tables.viewOwner "T" a.cls with
+        | none => .error .other | some .matrix => .ok (matTop a) | some .diag => .ok (diagT cfg a) | some _ => .ok (linT a))
+    ∧ opH cfg a = (match Tables.viewOwner "H" a.cls with
+        | none => .error .other | some .matrix => .ok (matHop a) | some .diag => diagH cfg a | some _ => .ok (linH a)) :=
+  ⟨Tables.isSub_from_table,
+   fun c hc => ⟨(Tables.arith_from_table c hc).1, (Tables.wrappers_from_table c hc).1, (Tables.wrappers_from_table c hc).2.1⟩,
+   Tables.addSub_branch cfg sub a b, Tables.views_from_table, Tables.opT_branch cfg a, Tables.opH_branch cfg a⟩
 
 /-- the declared `matrix_shape` is the shape of the denoted matrix, and a linear expression is
     always built as a `LinearOperator` -/
